@@ -644,6 +644,11 @@ def refine_droplet(
     l, h = droplet.data_bounds
     bounds = l[free], h[free]
 
+    if data_mask.size == 0:
+        # droplet covers no support point => intensities are irrelevant for the fit
+        vmin = vmax = 0.0
+        adjust_values = False
+
     # determine the intensities outside and inside the droplet
     if vmin is None:
         vmin = np.min(data_mask)
